@@ -3,7 +3,6 @@
 use crate::router::{base::Router, segments::RouteSegments};
 use crate::fang::{Fang, BoxedFPC};
 use crate::fang::handler::{Handler, IntoHandler};
-use crate::response::Content;
 use crate::Ohkami;
 use std::sync::Arc;
 
@@ -313,15 +312,11 @@ const _: () = {
                             = Box::leak(Box::new(self));
 
                         Handler::new(|_| Box::pin(async {
-                            let mut res = crate::Response::OK();
-                            {
-                                res.headers.set().ContentType(this.mime);
-                                res.content = Content::Payload({
-                                    let content: &'static [u8] = &this.content;
-                                    content.into()
-                                });
-                            }
-                            res
+                            /* `with_payload` declares the length as well as the type */
+                            crate::Response::OK().with_payload(this.mime, {
+                                let content: &'static [u8] = &this.content;
+                                content
+                            })
                         }), #[cfg(feature="openapi")] {use crate::openapi;
                             openapi::Operation::with(openapi::Responses::new([(
                                 200,
